@@ -36,6 +36,7 @@ import (
 )
 
 type clause struct {
+	props  []string // per-clause property override ([label @C19 @C17])
 	kind   string // requires ensures exit ghost loopinv at-assert at-assume at-set assume prove
 	label  string
 	f      *sx
@@ -59,6 +60,7 @@ type block struct {
 	impl      []string
 	allowPan  bool
 	freshRes  bool
+	frozenRes bool
 	text      string   // theory raw text
 	uses      []string // theory: go types to force
 	globs     []string // opaque
@@ -75,18 +77,21 @@ type contractDB struct {
 	chaninv  map[string]*block
 	lemmas   map[string]*block
 	order    []*block
+	immutable  map[string]bool // Struct.field: written only at construction, modelled as a pure function
+	frozen     map[string]bool // Struct.field holding a map whose contents never change once stored
+	frozenType map[string]bool // named map types whose values never change once converted
 }
 
 var clauseKeywords = map[string]bool{
 	"props": true, "theory": true, "requires": true, "ensures": true, "exit": true, "modifies": true,
 	"ghost": true, "loop": true, "at": true, "implements": true, "allow": true, "fresh": true,
-	"assume": true, "prove": true, "note": true, "var": true,
+	"assume": true, "prove": true, "note": true, "var": true, "frozen": true,
 }
 
 var blockRe = regexp.MustCompile(`(?s)/\*@(.*?)@\*/`)
 
 func loadContracts(files []string) (*contractDB, error) {
-	db := &contractDB{theories: map[string]*block{}, funcs: map[string]*block{}, ifaces: map[string]*block{}, chaninv: map[string]*block{}, lemmas: map[string]*block{}}
+	db := &contractDB{theories: map[string]*block{}, funcs: map[string]*block{}, ifaces: map[string]*block{}, chaninv: map[string]*block{}, lemmas: map[string]*block{}, immutable: map[string]bool{}, frozen: map[string]bool{}, frozenType: map[string]bool{}}
 	sort.Strings(files)
 	for _, f := range files {
 		data, err := os.ReadFile(f)
@@ -129,6 +134,18 @@ func (db *contractDB) add(b *block) error {
 		return put(db.chaninv)
 	case "lemma":
 		return put(db.lemmas)
+	case "immutable":
+		for _, g := range b.globs {
+			db.immutable[g] = true
+		}
+	case "frozen":
+		for _, g := range b.globs {
+			db.frozen[g] = true
+		}
+	case "frozen-type":
+		for _, g := range b.globs {
+			db.frozenType[g] = true
+		}
 	case "opaque":
 		for _, g := range b.globs {
 			db.opaque = append(db.opaque, g)
@@ -171,8 +188,8 @@ func parseBlock(body, file string, line int) (*block, error) {
 			return nil, fmt.Errorf("expected 'assumed func <name>'")
 		}
 		b.kind, b.name = "assumed", strings.Join(hdr[2:], " ")
-	case "opaque":
-		b.kind = "opaque"
+	case "opaque", "immutable", "frozen", "frozen-type":
+		b.kind = hdr[0]
 		b.globs = hdr[1:]
 		for _, l := range lines[hi+1:] {
 			b.globs = append(b.globs, strings.Fields(l)...)
@@ -247,11 +264,18 @@ func takeLabel(text string) (string, string) {
 func (b *block) addClause(kw, text string, line int) error {
 	mk := func(kind, text string) (*clause, error) {
 		label, rest := takeLabel(text)
+		var props []string
+		if i := strings.Index(label, " @"); i >= 0 {
+			for _, p := range strings.Fields(label[i:]) {
+				props = append(props, strings.TrimPrefix(p, "@"))
+			}
+			label = strings.TrimSpace(label[:i])
+		}
 		f, err := parseSx(rest)
 		if err != nil {
 			return nil, err
 		}
-		return &clause{kind: kind, label: label, f: f, src: rest, line: line}, nil
+		return &clause{kind: kind, label: label, f: f, src: rest, line: line, props: props}, nil
 	}
 	switch kw {
 	case "props":
@@ -269,6 +293,11 @@ func (b *block) addClause(kw, text string, line int) error {
 			return fmt.Errorf("expected 'allow panic'")
 		}
 		b.allowPan = true
+	case "frozen":
+		if strings.TrimSpace(text) != "result" {
+			return fmt.Errorf("expected 'frozen result'")
+		}
+		b.frozenRes = true
 	case "fresh":
 		if strings.TrimSpace(text) != "result" {
 			return fmt.Errorf("expected 'fresh result'")
